@@ -157,7 +157,11 @@ func runC14(r *ev.Run) {
 					rep(kind+".train-panics-on-accepted-size", fmt.Sprintf("Train panicked on %d vectors (minimum accepted size %d): %v", nTrain, minTrain, p))
 				}
 			}()
-			trainErr = s.idx.Train(mkTrain(nTrain))
+			tr := mkTrain(nTrain)
+			trainErr = s.idx.Train(tr)
+			if trainErr == nil {
+				scribbleOver(tr) // the caller reuses its training buffers
+			}
 		}()
 		if panicked {
 			return
@@ -170,10 +174,12 @@ func runC14(r *ev.Run) {
 			// an error (not a panic) for a set smaller than the code space is legal: train with enough
 			r.Count("train-below-code-space-rejected-with-error(legal)", 1)
 			nTrain = ksub + rng.IntN(50)
-			if err := s.idx.Train(mkTrain(nTrain)); err != nil {
+			tr := mkTrain(nTrain)
+			if err := s.idx.Train(tr); err != nil {
 				rep(kind+".train-error", err.Error())
 				return
 			}
+			scribbleOver(tr)
 		}
 		removals, flushes, nonEmpty := 0, 0, 0
 		type entry struct {
